@@ -25,7 +25,7 @@ SPEC = {
     "assumptions": ["isomorphism oracle: brute-force canonical form n<=8, igraph VF2 above (cross-checked with networkx VF2 and canonical form on small cases each run)"],
     "exhaustive_note": "all labelled simple graphs on n<=4 (quick) / n<=5 (thorough) vertices x 3^n colourings from {C, 13C, C radical}",
     "monitors_required": ["c02_partition_compare", "c02_near_miss_pairs", "c02_equal_string_groups", "oracle_selftest"],
-    "required_obs": {"quick": ["cov_wl_equivalent_nonisomorphic_pair", "cov_label_moved_pair_nonisomorphic", "cov_cfi_pair", "cov_switch_pair_nonisomorphic", "cov_massrad_pair"]},
+    "required_obs": {"quick": ["route/direct", "route/v3000", "route/v2000", "cov_label_removed_pair_nonisomorphic", "cov_wl_equivalent_nonisomorphic_pair", "cov_label_moved_pair_nonisomorphic", "cov_cfi_pair", "cov_switch_pair_nonisomorphic", "cov_massrad_pair"]},
     "watchdog_s": {"quick": 900, "thorough": 5400},
 }
 PLAN = {
@@ -34,10 +34,34 @@ PLAN = {
 }
 
 
+class PipelineFailed(Exception):
+    pass
+
+
 def pipeline(g):
     import tucan.canonicalization as c
     import tucan.serialization as s
-    return s.serialize_molecule(c.canonicalize_molecule(g))
+    try:
+        return s.serialize_molecule(c.canonicalize_molecule(g))
+    except Exception as e:
+        raise PipelineFailed(f"{type(e).__name__}: {e}") from e
+
+
+def remove_label(mol, rng):
+    """Same skeleton, one isotope/radical label dropped: certainly a different molecule."""
+    lab = [k for k, a in enumerate(mol.atoms) if a.mass or a.rad]
+    if not lab:
+        return None
+    out = mol.copy()
+    a = out.atoms[rng.choice(lab)]
+    if a.mass and a.rad and rng.random() < 0.5:
+        a.rad = 0
+    elif a.mass:
+        a.mass = 0
+    else:
+        a.rad = 0
+    out.name += "~label-removed"
+    return out
 
 
 def fixed_twins():
@@ -55,10 +79,38 @@ def fixed_twins():
     return out
 
 
+def route_graph(ctx, mol, rng, force=None):
+    """The molecule enters the pipeline directly as a graph or as molfile text written by the harness's renderers
+    (free-format V3000 with continuation lines / blank runs / keyword order, or fixed-column V2000)."""
+    import tucan.io.molfile_reader as mr
+    from ..oracles import ctab
+    from .c07 import random_style
+    route = force or rng.choice(["direct", "v3000", "v3000", "v2000"])
+    if route == "v2000" and not ctab.v2000_representable(mol):
+        route = "v3000"
+    ctx.seen("route", route)
+    try:
+        if route == "direct":
+            return bridge.graph_direct(mol, tag=False)
+        if route == "v3000":
+            st = random_style(rng, mol)
+            st.star = False
+            return mr.graph_from_molfile_text(ctab.render_v3000(mol, st, rng))
+        return mr.graph_from_molfile_text(ctab.render_v2000(mol, ctab.V2Style(encoding=rng.choice(["lines", "codes", "stale"]), per_line=rng.randint(1, 8),
+                                                                              dt_symbols=rng.random() < 0.5), rng))
+    except Exception as e:
+        raise PipelineFailed(f"reader: {type(e).__name__}: {e}") from e
+
+
 def compare_pair(ctx, kind, a: Mol, b: Mol, rng):
     """Pipeline on both (b randomly relabelled), oracle verdict, C02 direction only."""
     b2, _ = G.relabel(b, rng)
-    sa, sb = pipeline(bridge.graph_direct(a)), pipeline(bridge.graph_direct(b2))
+    try:
+        sa = pipeline(bridge.graph_direct(a))
+        sb = pipeline(route_graph(ctx, b2, rng) if len(b2.atoms) <= 40 else bridge.graph_direct(b2))
+    except PipelineFailed as e:
+        ctx.hard_inconclusive.append(f"pipeline raised on a near-miss pair ({kind}): {e}"[:300])
+        return
     ctx.evaluations += 2
     ctx.mon("c02_near_miss_pairs")
     try:
@@ -87,13 +139,21 @@ def run(ctx):
     ev = open(ctx.events_path, "w")
     # (a) exhaustive small sub-space
     for mol in common.small_exhaustive(ctx, plan["small_n"]):
-        s = pipeline(bridge.graph_direct(mol, tag=False))
+        try:
+            s = pipeline(bridge.graph_direct(mol, tag=False))
+        except PipelineFailed as e:
+            ctx.hard_inconclusive.append(f"pipeline raised on {mol.name}: {e}"[:300])
+            continue
         ctx.evaluations += 1
         key = iso.canon_small(mol.colors(), mol.edge_pairs())
         ev.write(json.dumps({"s": s, "k": repr(("canon", key)), "x": 1}) + "\n")
     # (c) random classes: string + refinement fingerprint + molecule
     for mol in common.random_classes(ctx, plan["random"]):
-        s = pipeline(bridge.graph_direct(mol, tag=False))
+        try:
+            s = pipeline(route_graph(ctx, mol, rng))
+        except PipelineFailed as e:
+            ctx.hard_inconclusive.append(f"pipeline raised on {mol.name}: {e}"[:300])
+            continue
         ctx.evaluations += 1
         ev.write(json.dumps({"s": s, "k": repr(common.mol_key(mol)), "x": 0, "m": mol.to_json() if len(mol.atoms) <= 40 else None}) + "\n")
     ev.close()
@@ -110,8 +170,8 @@ def run(ctx):
         if not any(a.mass or a.rad for a in base.atoms):
             a = base.atoms[rng.randrange(len(base.atoms))]
             a.mass = rng.choice([2, 13, 14])
-        kind = rng.choice(["switch_pair", "label_moved_pair", "massrad_pair"])
-        other = {"switch_pair": G.edge_switch, "label_moved_pair": G.move_label, "massrad_pair": G.swap_mass_rad}[kind](base, rng)
+        kind = rng.choice(["switch_pair", "label_moved_pair", "massrad_pair", "label_removed_pair"])
+        other = {"switch_pair": G.edge_switch, "label_moved_pair": G.move_label, "massrad_pair": G.swap_mass_rad, "label_removed_pair": remove_label}[kind](base, rng)
         if other is None:
             continue
         compare_pair(ctx, kind, base, other, rng)
